@@ -762,6 +762,9 @@ func Run(c *core.Ctx, focus string) {
 	if focus == "C07" {
 		restartScenario(c, base)
 	}
+	if focus == "C05" {
+		candidatesScenario(c, base)
+	}
 	c.SetExtra("bounds", map[string]interface{}{"export_config": exportCfg})
 }
 
